@@ -671,4 +671,29 @@ example : (fromBlocks ((2 : ℚ) • (1 : Matrix (Fin 1) (Fin 1) ℚ)) (1 : Matr
     have : i = j := Subsingleton.elim i j
     subst this; simp; norm_num
 
+section nonvacuousN
+local instance inv2q : Invertible (2 : ℚ) := ⟨1/2, by norm_num, by norm_num⟩
+
+/-- white-noise state observed without measurement error (`T = 0`, `P = Z = 1`, `H = 0`, unit covariances, data `y_t = t`) -/
+def exN : Inputs (Fin 2) (Fin 2) (Fin 2) (Fin 1) (fun _ => Fin 2) ℚ :=
+  { T := 0, P := 1, Kc := fun _ _ => 1, Z := fun _ => 1, H := fun _ => 0, D := fun _ _ _ => 0, y := fun t _ _ => t,
+    Su := fun _ => 1, Sw := fun _ => 1, u0 := fun _ => 0, w0 := fun _ => 0, Fi := fun _ => 1, aInit := 0, QInit := 1 }
+
+/-- the hypotheses of `filter_is_conditioning` / `likelihood_is_stacked_density` are met for EVERY horizon by a concrete system -/
+example : exN.Regular ∧ ∀ s, exN.F s * exN.Fi s = 1 := by
+  have hs : IrisVerif.KalmanAbs.symm (1 : Matrix (Fin 2) (Fin 2) ℚ) = 1 := symm_of_symmetric _ (by simp)
+  refine ⟨⟨?_, ?_, ?_, ?_⟩, ?_⟩
+  · simp [exN]
+  · intro t; simp [exN]
+  · intro t; simp [exN]
+  · intro t; simp [exN]
+  · intro s
+    have hF : exN.F s = 1 := by
+      simp [Inputs.F, Inputs.Ff, Inputs.Q0f, exN, hs]
+    rw [hF]
+    show (1 : Matrix (Fin 2) (Fin 2) ℚ) * 1 = 1
+    rw [Matrix.mul_one]
+
+end nonvacuousN
+
 end IrisVerif.C03
